@@ -5,8 +5,40 @@ from norm import short_callee
 TAGS = evalorder.VALUE_TAGS
 
 
+import re as _re
+
+_ITER_SPELLING = _re.compile(r"into_iter\((?:\[\w+\]|BTreeMap|Vec|HashMap)::iter\(")
+_FRESH = _re.compile(r"^(Vec::new\(\)|BTreeMap::new\(\)|Vec::with_capacity\(.*\))$")
+
+
+def _plain_iter(x):
+    """`for x in c.iter()` and `for x in &c` are the same forward iteration"""
+    if not isinstance(x, str):
+        return x
+    while True:
+        m = _ITER_SPELLING.search(x)
+        if not m:
+            return x
+        # drop the inner `X::iter(` and its matching ')'
+        start = m.start() + len("into_iter(")
+        inner_open = m.end() - 1
+        depth = 0
+        j = inner_open
+        while j < len(x):
+            if x[j] == "(":
+                depth += 1
+            elif x[j] == ")":
+                depth -= 1
+                if depth == 0:
+                    break
+            j += 1
+        x = x[:start] + x[inner_open + 1:j] + x[j + 1:]
+
+
 def canon_path(p, opfns):
     """-> list of canonical (conds, events, ret) (a path may expand into several)"""
+    p = dict(p, events=tuple(tuple(_plain_iter(y) for y in e) for e in p["events"]),
+             conds=tuple((_plain_iter(a), b) for a, b in p["conds"]), ret=_plain_iter(p["ret"]))
     events = []
     op_term = None
     ctx_term = None
@@ -29,8 +61,10 @@ def canon_path(p, opfns):
             elif name == "BTreeMap::insert" and len(e) == 5:
                 events.append(("insert", e[3], e[4]))
                 coll = "insert(%s, %s, %s)" % (e[2], e[3], e[4])
-            elif name in ("Vec::new", "BTreeMap::new"):
-                coll = coll or (name + "()")
+            elif name in ("Vec::new", "BTreeMap::new", "Vec::with_capacity"):
+                coll = coll or "%s(%s)" % (name, ", ".join(e[2:]))
+            elif name.endswith("::iter") and len(e) == 3:
+                pass   # `.iter()` before a for loop: same iteration as `&collection`
             elif any(("ctx" == a or a.startswith("ctx") or "self." in a or "ev(" in a) for a in e[2:]) and not pure_helper(name):
                 events.append(("call", name) + tuple(e[2:]))
         elif k in ("next", "end"):
@@ -44,8 +78,21 @@ def canon_path(p, opfns):
         elif ret == "await(%s)" % ctx_term:
             ret = "await(CTX)"
     if coll:
+        base = coll
+        while base.startswith(("push(", "insert(")):
+            base = base[base.index("(") + 1:]
+            # first argument up to the top-level comma
+            depth = 0
+            for k_, ch in enumerate(base):
+                if ch == "(":
+                    depth += 1
+                elif ch == ")":
+                    depth -= 1
+                elif ch == "," and depth == 0:
+                    base = base[:k_]
+                    break
         for form in ("Ok(Value::from<Vec>(%s))", "Ok(Vec(%s))", "Ok(Value::from<BTreeMap>(%s))", "Ok(Map(%s))"):
-            if ret == form % coll:
+            if ret == form % coll and _FRESH.match(base):
                 ret = "Ok(COLLECTION)"
     # conditions
     variants = [[]]
@@ -75,7 +122,10 @@ def canon_path(p, opfns):
     return out
 
 
-PURE = ("Value::eq", "Value::from", "Value::clone", "bool::try_from", "Value::try_into", "String::clone", "Vec::new", "BTreeMap::new")
+PURE = ("Value::eq", "Value::from", "Value::clone", "bool::try_from", "Value::try_into", "String::clone", "Vec::new", "BTreeMap::new",
+        # std observers without effect on what is evaluated or in which order
+        "Vec::len", "Vec::is_empty", "BTreeMap::len", "BTreeMap::is_empty", "[T]::len", "[T]::is_empty",
+        "Vec::with_capacity", "Vec::reserve", "String::len", "str::len")
 
 
 def pure_helper(name):
@@ -112,8 +162,21 @@ def tags_only(kind, path):
 
 
 def strip_op_args(path):
+    """the order view of a path (C05): which sub-expressions are evaluated, in which order, and when the
+    operator / the context is reached — not which arguments those receive (C02/C10/C11), nor calls that
+    cannot evaluate anything because they do not get the context"""
     conds, events, ret = path
-    return (conds, tuple(("op",) if e[0] == "op" else e for e in events), ret)
+    out = []
+    for e in events:
+        if e[0] == "op":
+            out.append(("op",))
+        elif e[0] == "ctx":
+            out.append(("ctx", e[1]))
+        elif e[0] == "call" and not any(a == "ctx" or a.startswith("ctx") for a in e[2:]):
+            continue
+        else:
+            out.append(e)
+    return (conds, tuple(out), ret)
 
 
 def compare_rows(table, classes=("bool", "other", "none"), ignore_op_wiring=False, kinds=None, tags_result_only=False):
